@@ -1,10 +1,23 @@
 use insim_core::{
-    binrw::{self, binrw},
-    string::{binrw_parse_codepage_string_until_eof, binrw_write_codepage_string},
+    binrw::{self, binrw, BinWrite},
+    string::{binrw_parse_codepage_string_until_eof, codepages},
 };
 
 use super::SoundType;
 use crate::identifiers::{ConnectionId, PlayerId, RequestId};
+
+/// Up to 128 bytes of text, in multiples of 4. LFS requires the last byte to be zero, so at
+/// most 127 bytes of text are sent, always followed by at least one NUL.
+#[binrw::writer(writer, endian)]
+fn binrw_write_mtc_text(input: &String) -> binrw::BinResult<()> {
+    let mut res = codepages::to_lossy_bytes(input).to_vec();
+    res.truncate(127);
+    res.push(0);
+    while res.len() % 4 != 0 {
+        res.push(0);
+    }
+    res.write_options(writer, endian, ())
+}
 
 #[binrw]
 #[derive(Debug, Clone, Default)]
@@ -25,7 +38,7 @@ pub struct Mtc {
     pub plid: PlayerId,
 
     /// Message
-    #[bw(write_with = binrw_write_codepage_string::<128, _>, args(false, 4))]
+    #[bw(write_with = binrw_write_mtc_text)]
     #[br(parse_with = binrw_parse_codepage_string_until_eof)]
     pub text: String,
 }
